@@ -447,3 +447,92 @@ class MapOrderView:
 
     def __ch_deep_realize__(self, memo):
         return self
+
+
+class PermMap:
+    """
+    stand-in for an immutables.Map *created inside* the code under test (see install_perm_maps): a persistent mapping whose
+    bulk iteration order is the sorted key order rearranged by the module-level permutation PermMap.PERM (a tuple over
+    range(3), set by the harness from a solver-chosen index); maps of another size iterate in sorted order.
+    """
+
+    PERM = (0, 1, 2)
+
+    def __init__(self, *a, **kw):
+        self.d = dict(*a, **kw)
+
+    def _order(self):
+        ks = sorted(self.d.keys(), key=lambda k: str(k))
+        if len(ks) == 3:
+            return [ks[i] for i in PermMap.PERM]
+        if len(ks) == 2 and PermMap.PERM[0] > PermMap.PERM[1]:
+            return [ks[1], ks[0]]
+        return ks
+
+    def set(self, k, v):
+        n = PermMap(self.d)
+        n.d[k] = v
+        return n
+
+    def delete(self, k):
+        n = PermMap(self.d)
+        del n.d[k]
+        return n
+
+    def update(self, *a, **kw):
+        n = PermMap(self.d)
+        n.d.update(*a, **kw)
+        return n
+
+    def get(self, k, default=None):
+        return self.d.get(k, default)
+
+    def __getitem__(self, k):
+        return self.d[k]
+
+    def __contains__(self, k):
+        return k in self.d
+
+    def __len__(self):
+        return len(self.d)
+
+    def __bool__(self):
+        return len(self.d) > 0
+
+    def __iter__(self):
+        return iter(self._order())
+
+    def keys(self):
+        return self._order()
+
+    def values(self):
+        return [self.d[k] for k in self._order()]
+
+    def items(self):
+        return [(k, self.d[k]) for k in self._order()]
+
+    def __eq__(self, o):
+        return self.d == (o.d if isinstance(o, PermMap) else dict(o.items()))
+
+    def __hash__(self):
+        return hash(tuple(sorted(self.d.items(), key=lambda kv: str(kv[0]))))
+
+    def __class_getitem__(cls, item):  # immutables.Map[K, V] in annotations
+        return cls
+
+
+class _ImmutablesShim:
+    """module stand-in: `immutables.Map(...)` evaluated inside the patched module builds a PermMap"""
+
+    Map = PermMap
+
+    def __getattr__(self, name):
+        import immutables as _imm
+
+        return getattr(_imm, name)
+
+
+def install_perm_maps(module):
+    """every immutables.Map that functions of `module` create from now on iterates in a harness-chosen order; Maps that are
+    passed in (fields of the state) are untouched.  Also binds the name when the module does not import immutables."""
+    module.immutables = _ImmutablesShim()
